@@ -892,6 +892,19 @@ fn enumerate_schemas_base(thorough: bool) -> Vec<Schema> {
         b.push("G-enum", false, Kind::Enum(EnumS { enc: eenc, tag: None, index_only: false, variants }));
         let one = vec![VariantS { idx: 256, shape: Shape::Named, enc: None, tag: None, fields: vec![fld(1, FTy::U8)] }];
         b.push("G-enum", false, Kind::Enum(EnumS { enc: eenc, tag: None, index_only: false, variants: one }));
+        // variant indices on both sides of every head-width boundary
+        let wide: Vec<VariantS> = [23u32, 24, 255, 256, 65535, 65536]
+            .iter()
+            .enumerate()
+            .map(|(k, i)| match k % 3 {
+                0 => VariantS { idx: *i, shape: Shape::Unit, enc: None, tag: None, fields: vec![] },
+                1 => VariantS { idx: *i, shape: Shape::Tuple, enc: None, tag: None, fields: vec![fld(0, FTy::U8)] },
+                _ => VariantS { idx: *i, shape: Shape::Named, enc: Some(Enc::Map), tag: Some(24), fields: vec![fld(24, FTy::OptU8)] },
+            })
+            .collect();
+        b.push("G-enum", false, Kind::Enum(EnumS { enc: eenc, tag: None, index_only: false, variants: wide }));
+        let wide_io: Vec<VariantS> = [23u32, 24, 255, 256, 65535, 65536].iter().map(|i| VariantS { idx: *i, shape: Shape::Unit, enc: None, tag: None, fields: vec![] }).collect();
+        b.push("G-enum", false, Kind::Enum(EnumS { enc: eenc, tag: None, index_only: true, variants: wide_io }));
     }
 
     // ---- G-type: every field type in every container position
